@@ -208,6 +208,10 @@ pub fn grid_sweep(
         }
     })
 }
+/// every `step`-th encoding of a catalogue under each outer header of `en::wrappers`
+pub fn wrapped(cat: &[vcommon::en::W], step: usize) -> Vec<vcommon::en::W> {
+    cat.iter().step_by(step.max(1)).filter(|w| w.buf.len() <= 70000).flat_map(|w| vcommon::en::wrappers(&w.buf)).collect()
+}
 pub fn no_wrap(w: &vcommon::en::W) -> vcommon::en::W {
     w.clone()
 }
